@@ -228,7 +228,11 @@ class RecurrencePlot(Cached):
                                 plot!")
 
     def __cache_state__(self) -> Tuple[Hashable, ...]:
-        return (self._mut_embedding,)
+        return (self._mut_embedding, getattr(self, "_mut_R", 0))
+
+    def _recurrence_matrix_changed(self):
+        """Invalidate cached quantities derived from the recurrence matrix."""
+        self._mut_R = getattr(self, "_mut_R", 0) + 1
 
     def __str__(self):
         """
@@ -569,6 +573,7 @@ class RecurrencePlot(Cached):
             recurrence[:, self.missing_value_indices] = 0
 
         self.R = recurrence
+        self._recurrence_matrix_changed()
 
     def set_fixed_threshold_std(self, threshold_std):
         """
@@ -608,6 +613,7 @@ class RecurrencePlot(Cached):
         recurrence[distance < threshold] = 1
         self._clear_missing_values(recurrence)
         self.R = recurrence
+        self._recurrence_matrix_changed()
 
     def _clear_missing_values(self, recurrence):
         """
@@ -647,6 +653,7 @@ class RecurrencePlot(Cached):
             recurrence[i, distance[i, :] < local_threshold] = 1
         self._clear_missing_values(recurrence)
         self.R = recurrence
+        self._recurrence_matrix_changed()
 
     def set_adaptive_neighborhood_size(self, adaptive_neighborhood_size,
                                        order=None):
@@ -696,6 +703,7 @@ class RecurrencePlot(Cached):
                                         sorted_neighbors, order, recurrence)
         self._clear_missing_values(recurrence)
         self.R = recurrence
+        self._recurrence_matrix_changed()
 
     @staticmethod
     def threshold_from_recurrence_rate(distance, recurrence_rate: float):
